@@ -26,11 +26,28 @@ clause → theorem
                                                           re-extracted from the source; every interleaving of whole
                                                           calls is a sequential history, to which all of the above apply)
 
+Deepening pass (second table; same clauses, stated on positions of the history and on the entry points
+users call, plus the rest of `src/peer.rs`):
+* lookup ⇔ an accepted, owner-changing `alias p k` at some position, `p` not removed since, no later
+  accepted `alias q k` ......................................... `lookup_iff_assigned_since` (`AssignedSince`, no fold)
+* alias list = keys assigned since some position, ordered by
+  those positions ............................................. `alias_list_by_assignment_calls`
+* presence = inserted and not removed since .................... `present_iff_inserted_and_not_removed`
+* remove / broadcast on the state after *any* history .......... `remove_after_any_history`, `broadcast_entry_points`
+* the four `broadcast_notify_*` entry points incl. encoder
+  error, format codes re-read from the source .................. `broadcast_entry_points`
+* `PeerHandle::send_notify/is_connected`, `CallContext` ........ `handle_forwards_to_its_sink`, `plain_contexts_never_cancel`
+* `insert`'s contract: minted / distinct ids never re-insert;
+  what exactly happens outside the contract .................... `minted_ids_respect_contract`, `distinct_ids_respect_contract`,
+                                                                 `reinsert_outside_contract`
+* forms of the source branches the model mirrors ............... `source_forms`
+* composition with C15's lifecycle model ....................... `lifecycle_runs_are_registry_histories`
+
 The model (`Model/Peers.lean`) mirrors `RegistryInner`'s three maps and the branches of
 `alias`/`remove`/`get_by`/`key_for`/`aliases_for`/`broadcast_each`.  Re-inserting a present id is
 outside `insert`'s documented contract (`debug_assert!`); the theorems nevertheless hold for such
-histories too (the model overwrites the handle like the code does), the correspondence runs do not
-generate them.
+histories too (the model overwrites the handle like the code does, see `reinsert_outside_contract`),
+the correspondence runs do not generate them.
 -/
 namespace Repe.C18
 open Repe.Peers
@@ -453,7 +470,7 @@ example : AssignedSince demo "a" 1 4 :=
    by decide, by decide, by decide, by
      intro h2a q h2b e
      rcases h2a with _ | ⟨x, _ | ⟨y, _ | ⟨z, r⟩⟩⟩ <;> simp at e⟩
-example : insertedIds demo = mintN 0 2 := by decide
+example : insertedIds demo = mintN 0 2 ∧ (insertedIds demo).Nodup ∧ 0 + 2 ≤ 2 ^ 64 := by decide
 example : get (after demo) 1 = some ⟨1, 11⟩ := by decide
 example : Reachable (after demo) := ⟨_, demo, rfl⟩
 example : broadcastNotify (after demo) .utf8 "/p" (some [104, 105]) (fun _ => .ok) =
